@@ -167,8 +167,12 @@ def check(repo: Repo, rep: Report) -> None:
     ok = any(isinstance(s.node, (ast.Assign, ast.AnnAssign)) and u(s.node.value) == "ConnectableObservable(source, subject)" for s in sites(mc))
     rep.ob("N4-delegation", mc, "multicast(subject) -> ConnectableObservable(source, subject)", ok, "multicast does not build a ConnectableObservable over the given subject")
     msub = repo.fn(MC, "multicast_.multicast.subscribe")
-    t = " ".join(u(n) for n in msub.all_nodes() if isinstance(n, ast.Call))
-    ok = "subject_factory(scheduler)" in t and "mapper(connectable)" in t and any(
-        isinstance(s.node, ast.Return) and "connectable.connect(scheduler)" in u(s.node.value) and "subscription" in u(s.node.value) for s in sites(msub))
+    conn = [u(s.node.targets[0]) for s in sites(msub) if isinstance(s.node, ast.Assign) and "subject_factory(scheduler)" in u(s.node.value)
+            and "multicast" in u(s.node.value)]
+    cv = conn[0] if conn else "connectable"
+    subs_ = [u(s.node.targets[0]) for s in sites(msub) if isinstance(s.node, ast.Assign) and u(s.node.value).startswith(f"mapper({cv}).subscribe(")]
+    ok = bool(conn) and bool(subs_) and any(
+        isinstance(s.node, ast.Return) and isinstance(s.node.value, ast.Call) and call_name(s.node.value) == "CompositeDisposable"
+        and sorted(u(a) for a in s.node.value.args) == sorted([subs_[0], f"{cv}.connect(scheduler)"]) for s in sites(msub))
     rep.ob("N4-delegation", msub, "mapper form: fresh subject per subscription, connect held with the subscription", ok,
            "multicast(subject_factory, mapper) does not create its subject per subscription and hold both the mapped subscription and the connection")
